@@ -353,6 +353,8 @@ def report(mod, prop, tier, seed, cases, results, problems, wall, write_evidence
         with open(os.path.join(HERE, 'evidence', prop + '.json'), 'w') as f:
             json.dump(ev, f, indent=1, default=_js)
             f.write('\n')
+    if os.environ.get('VERIF_PRINT_COUNTERS'):
+        print('COUNTERS ' + json.dumps(dict(sorted(obs.items()))))
     print('%s %s seed=%d: %d cases, %d distinct non-trivial, %d new violations, %d known-finding signatures, %.1fs -> %s'
           % (prop, tier, seed, len(results), len(nontrivial_sigs), len(viol_new), len(known_hits), wall,
              {0: 'HELD', 1: 'VIOLATED', 2: 'INCONCLUSIVE'}[rc]))
@@ -376,7 +378,14 @@ def replay_worker(prop, path):
         rp = json.load(f)
     case = rp['case']
     case['trace'] = True
-    res = mod.run_case(case)
+    # the repository print()s on some paths; keep stdout clean for the JSON
+    import io
+    real_out = sys.stdout
+    sys.stdout = io.StringIO()
+    try:
+        res = mod.run_case(case)
+    finally:
+        sys.stdout = real_out
     print(json.dumps(dict(violations=res.get('violations'), inconclusive=res.get('inconclusive'), obs=res.get('obs'),
                           sample=res.get('sample'), trace=res.get('trace')), indent=1, default=_js))
     return 1 if res.get('violations') else 0
